@@ -28,7 +28,7 @@ CLAIMS = {
              "All inputs x patterns over small alphabets (incl. every ASCII whitespace/control byte class and all 256 byte values at the edges), all four pattern kinds; results compared by address with std; two-sided trim_matches with multi-char patterns must equal one of the two compositions of the one-sided std functions.",
              "DESIGN.md §3 C05, §9.2", "harness/src/bin/c05.rs, progs/gen_deep.py"),
     "C07": C("complete enumeration of char/u32 conversions + model-based history testing of chars/char_indices vs std",
-             "Every char through encode_utf8 and every u32 < 0x120000 through from_u32 (complete); all strings up to 5-6 chars over one char per UTF-8 length x all front/back histories for chars/char_indices/their reversed types, as_str() compared by address after every step.",
+             "Every char through encode_utf8 and every u32 < 0x120000 through from_u32 (complete), plus every upper half 0x12..=0xffff x 7 lower halves (quick) and all 2^32 u32 values (thorough, 16 threads); all strings up to 5-6 chars over one char per UTF-8 length x all front/back histories for chars/char_indices/their reversed types, as_str() compared by address after every step.",
              "DESIGN.md §3 C07, §9.7", "harness/src/bin/c07.rs, progs/gen_deep.py"),
     "C08": C("model-based history testing vs core::slice iterators: exhaustive (length,size,history) enumeration + seeded proptest",
              "All lengths 0..=11 x sizes 1..=12 x 8 iterator kinds x {fwd,rev,rev.rev} x {u16,()} x every front/back history run past exhaustion; items compared by address with std's iterator, as_slice()/remainder() after every step, copy() independence, size 0 panics; planted 40k/70k-element slices and sizes congruent to small values modulo 2^8/2^16; const evaluation of long iterations.",
